@@ -11,8 +11,22 @@ import (
 type Outcome struct {
 	Kind  string `json:"k"`           // "accept" | "reject" | "partial"
 	Perms string `json:"p,omitempty"` // permissions template: "" (nil), "plain", "ext", "src=<list>", "src=<list>;ext", "same" (Verified only: return the object passed in)
-	Next  int    `json:"n,omitempty"` // stage named by a partial success
+	Next  int    `json:"n,omitempty"` // stage named by a partial success (-1: a PartialSuccessError whose Next has no callbacks)
+	// Shape is how the error is presented.  reject: "" plain error, "banner"
+	// (*BannerError wrapping a plain error), "banner-empty" (*BannerError with a
+	// message and no inner error), "multi" (a ServerAuthError listing a plain
+	// error and a PartialSuccessError; it has no Unwrap).  partial: "" the
+	// *PartialSuccessError itself, "banner" (*BannerError wrapping it), "wrapf"
+	// (fmt.Errorf("%w")), "join" (errors.Join(plain, partial)).
+	Shape string `json:"s,omitempty"`
 }
+
+// Wrapped reports whether o is a PartialSuccessError that is not returned as
+// such but inside another error.  The documentation only gives meaning to a
+// PartialSuccessError "returned by" a callback, so the model treats a wrapped
+// one as the rejection its outer error is; a server that honours it is
+// tolerated, but only for a request that satisfied its method (Model.Honor).
+func (o Outcome) Wrapped() bool { return o.Kind == "partial" && o.Shape != "" }
 
 func (o Outcome) String() string {
 	s := o.Kind
@@ -21,6 +35,9 @@ func (o Outcome) String() string {
 	}
 	if o.Perms != "" {
 		s += "[" + o.Perms + "]"
+	}
+	if o.Shape != "" {
+		s += "/" + o.Shape
 	}
 	return s
 }
@@ -49,6 +66,7 @@ type Stage struct {
 	Password  Callback `json:"password"`  // key: user|password
 	PublicKey Callback `json:"publickey"` // key: user|keyname
 	Kbd       Callback `json:"kbd"`       // key: user|last answer
+	Gss       Callback `json:"gss"`       // GSSAPIWithMICConfig.AllowLogin, key: user|source name
 }
 
 func (s *Stage) Methods() []string {
@@ -61,6 +79,9 @@ func (s *Stage) Methods() []string {
 	}
 	if s.Kbd.Present {
 		m = append(m, "keyboard-interactive")
+	}
+	if s.Gss.Present {
+		m = append(m, "gssapi-with-mic")
 	}
 	return m
 }
@@ -134,6 +155,9 @@ type Req struct {
 	Signed   bool    `json:"signed,omitempty"`
 	Sig      SigSpec `json:"sig,omitempty"`
 	Kbd      string  `json:"kbd,omitempty"` // answer given in every round: any string; special: "#short", "#junk", "#othertype"
+	// Gss (gssapi-with-mic against the harness's fake mechanism): "u1"/"u2" (token naming that source, correct MIC),
+	// "#bad-token", "#mic-session" (MIC over another session id), "#mic-user", "#no-mech", "#other-mech", "#malformed"
+	Gss string `json:"gss,omitempty"`
 }
 
 func (r *Req) ServiceName() string {
@@ -151,6 +175,8 @@ func (r *Req) Sym() string {
 		s += "," + r.Password
 	case "keyboard-interactive":
 		s += "," + r.Kbd
+	case "gssapi-with-mic":
+		s += "," + r.Gss
 	case "publickey":
 		s += "," + r.Key + "," + r.Algo
 		if r.Signed {
@@ -185,6 +211,8 @@ type Facts struct {
 	SigValid  bool   // the signature blob sent verifies under the offered key over the RFC 4252 §7 data of this very request and session
 	SigFormat string // format name in the signature blob sent
 	KeyKnown  bool   // the blob sent is a well-formed key of the test set
+	MICValid  bool   // gssapi: the MIC sent is the fake mechanism's MIC over this session, user and service
+	GssSource string // gssapi: source name the token sent establishes ("" if the token is refused)
 }
 
 // ---- the model ----
@@ -209,9 +237,28 @@ type Model struct {
 	NoneCount int
 	User      string
 	Keys      *Keys
+	Honor     bool // treat wrapped PartialSuccessErrors as partial successes
 }
 
 func NewModel(s *Spec) *Model { return &Model{Spec: s, Keys: TestKeys()} }
+
+// look consults a callback table; a wrapped PartialSuccessError counts as the
+// rejection it looks like unless the model is asked to honour it.
+func (m *Model) look(c *Callback, key string) Outcome {
+	o := c.Lookup(key)
+	if o.Wrapped() && !m.Honor {
+		return Outcome{Kind: "reject", Perms: o.Perms, Shape: o.Shape}
+	}
+	return o
+}
+
+// StepHonoringWrapped is Step under the reading that a PartialSuccessError
+// wrapped in another error is still a partial success.
+func (m *Model) StepHonoringWrapped(req *Req, f Facts) Want {
+	c := *m
+	c.Honor = true
+	return c.Step(req, f)
+}
 
 // LimitReached reports whether the server must refuse to process any further
 // request (MaxAuthTries failures, or 128 requests).
@@ -260,7 +307,7 @@ func (m *Model) Step(req *Req, f Facts) Want {
 			return m.fail(w, "none not allowed")
 		}
 		if m.Spec.None.Present {
-			res = m.Spec.None.Lookup(req.User)
+			res = m.look(&m.Spec.None, req.User)
 		} else {
 			res = Outcome{Kind: "accept"}
 		}
@@ -271,7 +318,7 @@ func (m *Model) Step(req *Req, f Facts) Want {
 		if req.Form != "" {
 			return Want{Kind: "abort", Why: "malformed password request"}
 		}
-		res = st.Password.Lookup(req.User + "|" + req.Password)
+		res = m.look(&st.Password, req.User+"|"+req.Password)
 	case "keyboard-interactive":
 		if !st.Kbd.Present {
 			return m.fail(w, "keyboard-interactive not configured")
@@ -282,7 +329,7 @@ func (m *Model) Step(req *Req, f Facts) Want {
 		} else if strings.HasPrefix(ans, "#") {
 			return m.fail(w, "malformed info response")
 		}
-		res = st.Kbd.Lookup(req.User + "|" + ans)
+		res = m.look(&st.Kbd, req.User+"|"+ans)
 	case "publickey":
 		if !st.PublicKey.Present {
 			return m.fail(w, "publickey not configured")
@@ -298,7 +345,7 @@ func (m *Model) Step(req *Req, f Facts) Want {
 			return m.fail(w, "unparsable key")
 		}
 		key := m.Keys.ByName[req.Key]
-		o := st.PublicKey.Lookup(req.User + "|" + req.Key)
+		o := m.look(&st.PublicKey, req.User+"|"+req.Key)
 		if o.Kind != "reject" && !m.srcOK(o.Perms) {
 			o = Outcome{Kind: "reject"}
 			w.Why = "source-address of public key permissions"
@@ -334,12 +381,28 @@ func (m *Model) Step(req *Req, f Facts) Want {
 		}
 		res = o
 		if o.Kind == "accept" && m.Spec.Verified.Present {
-			v := m.Spec.Verified.Lookup(req.User + "|" + req.Key + "|" + f.SigFormat)
+			v := m.look(&m.Spec.Verified, req.User+"|"+req.Key+"|"+f.SigFormat)
 			if v.Perms == "same" {
 				v.Perms = o.Perms
 			}
 			res = v
 		}
+	case "gssapi-with-mic":
+		if !st.Gss.Present {
+			return m.fail(w, "gssapi-with-mic not configured")
+		}
+		switch req.Gss {
+		case "#malformed":
+			return Want{Kind: "abort", Why: "malformed gssapi request"}
+		case "#no-mech", "#other-mech":
+			return m.fail(w, "no usable gssapi mechanism")
+		case "#bad-token":
+			return m.fail(w, "security context refused")
+		}
+		if !f.MICValid {
+			return m.fail(w, "MIC does not verify")
+		}
+		res = m.look(&st.Gss, req.User+"|"+f.GssSource)
 	default:
 		return m.fail(w, "unknown method")
 	}
